@@ -229,6 +229,9 @@ def step (s : St) (line : String) : IO St := do
     if kvN rest "out_amt" + fee != kvN rest "htlc_amt" then
       s ← monitor s "second-level-amount" s!"ctx={kvS rest "ctx"} kind={kvS rest "kind"} out_amt={kvN rest "out_amt"} htlc_amt={kvN rest "htlc_amt"} fee={fee}"
     return s
+  | "history" :: rest =>
+    if kvNat? rest "dead" == some 1 then mismatch s "history aborted: a peer rejected an honest message"
+    else return s
   | "value" :: rest => handleValue s rest
   | "spend" :: rest => handleSpend s ("spend" :: rest)
   | [] => return s
